@@ -18,9 +18,11 @@ use crate::run::{run_mode, Mode};
 use crate::spell::{spell, Feats};
 
 fn pick_mode(rng: &mut Rng) -> Mode {
-    match rng.below(4) {
+    match rng.below(6) {
         0 | 1 => Mode::Slice,
         2 => Mode::Reader(Sched::One),
+        3 => Mode::Reader(Sched::All),
+        4 => Mode::Reader(Sched::Fixed(*rng.pick(&[8191usize, 8192, 8193, 16384]))),
         _ => Mode::Reader(Sched::Random(rng.next(), 32)),
     }
 }
@@ -152,7 +154,13 @@ pub fn run(ctx: &Ctx) -> i32 {
     let acc = crate::par::run(n, 8, |i, acc| {
         let mut rng = Rng::derive(seed, 0xc06, i as u64);
         let mut cl = Classes::default();
-        let base = gen_doc(&mut rng, &GenOpts::common(), &mut cl);
+        let heavy = i % 300 == 299;
+        let base = if heavy {
+            acc.count("heavy_documents");
+            crate::gen::gen_heavy_doc(&mut rng)
+        } else {
+            gen_doc(&mut rng, &GenOpts::common(), &mut cl)
+        };
         let tdoc = tomlify(&base);
         cl.add_to(acc);
         if cl.hostile() > 0 || base.depth() >= 3 {
@@ -172,7 +180,15 @@ pub fn run(ctx: &Ctx) -> i32 {
                 let mut feats = Feats::default();
                 let plain = rng_bool(&mut rng);
                 let x = spell(a, doc, &mut rng, &mut feats, plain);
-                let (m1, m2) = (pick_mode(&mut rng), pick_mode(&mut rng));
+                let (mut m1, mut m2) = (pick_mode(&mut rng), pick_mode(&mut rng));
+                if heavy {
+                    // byte-at-a-time schedules over tens of KiB only burn time
+                    for m in [&mut m1, &mut m2] {
+                        if matches!(m, Mode::Reader(Sched::One) | Mode::Reader(Sched::Random(..))) {
+                            *m = Mode::Reader(Sched::Fixed(8192));
+                        }
+                    }
+                }
                 fixed_point(&x, a, b, &m1, &m2, false, acc);
                 round_trip(&x, a, b, &m1, &m2, acc);
             }
@@ -207,7 +223,7 @@ pub fn run(ctx: &Ctx) -> i32 {
     });
     let rule = format!("{} generated common-model documents x 16 ordered pairs (A,B) x both clauses, with slice/reader chosen independently at each hop and conventional or hostile spelling of the input; plus per document one extension document (binary, f32, non-finite floats, non-string keys) from MessagePack and YAML to every B for clause (i), and TOML date-time documents; documents xt cannot translate to B are skipped for clause (i) as the property says; distinct non-trivial = distinct documents with a hostile-class scalar or depth >= 3", n);
     ev::finish(
-        Finish { ctx, level: "exploration", rule, assumptions: vec!["no reference implementation: xt is compared with itself".into()], extra: serde_json::Map::new(), exhaustive: false, min_distinct: 500, must_reach: vec![("extension_documents_translatable".into(), 100), ("toml_datetime_documents".into(), 10)] },
+        Finish { ctx, level: "exploration", rule, assumptions: vec!["no reference implementation: xt is compared with itself".into()], extra: serde_json::Map::new(), exhaustive: false, min_distinct: 500, must_reach: vec![("heavy_documents".into(), 10), ("extension_documents_translatable".into(), 100), ("toml_datetime_documents".into(), 10)] },
         acc,
     )
 }
